@@ -24,8 +24,10 @@
      replacement: `canon_den_positiveSW`; every compatible semi-Markovian model has it (`scm_envX_positiveSW`), whence
      `canon_den_scm_positive` (C10 in `M.env G` with no hypothesis on denominators).
 
-  4. Non-vacuity: a concrete 3-variable functional SCM with a confounder and a concrete semi-Markovian bow model
-     satisfy all hypotheses.
+  4. Non-vacuity: a concrete 3-variable functional SCM with a confounder (`conf3`, with a genuinely cross-world joint
+     value) satisfies all hypotheses.  Concrete semi-Markovian models, the composition with ID (`id_sound_canonical`),
+     and the relation between the two model classes (`fscm_toScm_prDo`, `fscm_toScm_compatible`, `id_sound_fscm`) are in
+     Y0/Props/C10SemId.lean.
 -/
 import Y0.Lemmas.FscmEnvLaws
 import Y0.Lemmas.ScmEnvXAgree
